@@ -50,15 +50,47 @@ let evictions (cap : int) (st : store) (name : n list) : store * event list =
     else (st, List.rev acc) in
   go st []
 
-let parse_init (cap : int) (f : string) : store =
-  if f = "-" then [] else
-  List.fold_left (fun st box ->
+(* the memory store's store-wide size limit (maxkb): after a delivery (and its cap evictions) the
+   globally oldest live messages go until the store holds at most [maxb] bytes. [arr] is the
+   arrival order of everything ever delivered: (mailbox, id). *)
+let size_evictions (maxb : int) (st : store) (arr : (n list * n list) list) : store * event list =
+  if maxb <= 0 then (st, []) else
+  let live = List.filter_map (fun (nm, id) ->
+      match List.find_opt (fun m -> m.sid = id) (get_box st nm).mmsgs with
+      | Some m -> Some (nm, id, List.length m.ssrc)
+      | None -> None) arr in
+  let total = List.fold_left (fun a (_, _, sz) -> a + sz) 0 live in
+  let rec go total live st acc =
+    if total > maxb then
+      match live with
+      | (nm, id, sz) :: r -> go (total - sz) r (remove_msg st nm id) (ERemove (nm, id) :: acc)
+      | [] -> (st, List.rev acc)
+    else (st, List.rev acc) in
+  go total live st []
+
+(* one delivery with both limits: the new store, the arrival list, the removals it caused *)
+let deliver_limited (cap : int) (maxb : int) (st : store) (arr : (n list * n list) list) (name : n list) (src : n list)
+  : store * (n list * n list) list * event list =
+  let st1 = deliver st name src in
+  let id = (match List.rev (get_box st1 name).mmsgs with m :: _ -> m.sid | [] -> []) in
+  let arr = arr @ [(name, id)] in
+  let (st2, e1) = evictions cap st1 name in
+  let (st3, e2) = size_evictions maxb st2 arr in
+  (st3, arr, e1 @ e2)
+
+let parse_init_lim (cap : int) (maxb : int) (f : string) : store * (n list * n list) list =
+  if f = "-" then ([], []) else
+  List.fold_left (fun (st, arr) box ->
     match String.index_opt box ':' with
-    | None -> st
+    | None -> (st, arr)
     | Some i ->
         let name = fstr (String.sub box 0 i) in
         let srcs = split '.' (String.sub box (i + 1) (String.length box - i - 1)) in
-        List.fold_left (fun st s -> fst (evictions cap (deliver st name (fstr s)) name)) st srcs) [] (split ';' f)
+        List.fold_left (fun (st, arr) s ->
+          let (st', arr', _) = deliver_limited cap maxb st arr name (fstr s) in (st', arr')) (st, arr) srcs)
+    ([], []) (split ';' f)
+
+let parse_init (cap : int) (f : string) : store = fst (parse_init_lim cap 0 f)
 
 let split2 (s : string) : string * string =
   match String.index_opt s ':' with
@@ -196,11 +228,13 @@ let () =
     let (kind, ins, outs) = Mlutil.split_case line in
     match kind, ins with
     | "sess", [fl; init; events] ->
-        let (flname, cap) = match String.index_opt fl ':' with
-          | Some i -> (String.sub fl 0 i, int_of_string (String.sub fl (i + 1) (String.length fl - i - 1)))
-          | None -> (fl, 0) in
+        let (flname, cap, maxb) = match String.split_on_char ':' fl with
+          | [a; c; m] -> (a, int_of_string c, 1024 * int_of_string m)
+          | [a; c] -> (a, int_of_string c, 0)
+          | _ -> (fl, 0, 0) in
         let fl' = if flname = "file" then File else Mem in
-        let st0 = parse_init cap init in
+        let (st0, arr0) = parse_init_lim cap maxb init in
+        let arr = ref arr0 in
         let pevs = parse_events events in
         (* byte chunks -> lines (Coq: feed), cap evictions -> explicit removals,
            'n' -> a new segment run from the store the previous session left *)
@@ -217,8 +251,12 @@ let () =
               let (w, acc) = List.fold_left (fun (w, acc) e ->
                 let w = wstep fl' w e in
                 match e with
-                | EDeliver (name, _) when cap > 0 ->
-                    let (_, rm) = evictions cap w.w_store name in
+                | EDeliver (name, _) when cap > 0 || maxb > 0 ->
+                    let id = (match List.rev (get_box w.w_store name).mmsgs with m :: _ -> m.sid | [] -> []) in
+                    arr := !arr @ [(name, id)];
+                    let (st1, rm1) = evictions cap w.w_store name in
+                    let (_, rm2) = size_evictions maxb st1 !arr in
+                    let rm = rm1 @ rm2 in
                     let w = List.fold_left (wstep fl') w rm in
                     (w, List.rev_append rm (e :: acc))
                 | _ -> (w, e :: acc)) (w, acc) es in
